@@ -30,12 +30,15 @@ type wpkt struct {
 	noFault bool
 }
 
+type sendSnap struct{ cwnd, rwnd uint32 }
+
 type wireEvent struct {
 	At    time.Duration
-	Kind  string // send deliver drop dup late swap inject
+	Kind  string // send deliver undeliverable drop dup late swap inject kill
 	Seq   int
 	From  int
 	Pkt   *wpkt
+	snap  *sendSnap
 }
 
 type wendpoint struct {
@@ -70,6 +73,7 @@ type wire struct {
 	blackhole [2]bool            // drop everything sent by endpoint i (silent peer)
 	killFn    func(p *wpkt) bool // deterministic drop rule applied at send time
 	envPreempt bool
+	onQuiescent func()
 }
 
 func newWire(s *vsched.Sched) *wire {
@@ -131,11 +135,12 @@ func (w *wire) inject(to int, b []byte) {
 }
 
 func (w *wire) deliver(p *wpkt) {
-	w.record("deliver", p)
 	to := 1 - p.from
 	if w.ep[to].closed {
+		w.record("undeliverable", p)
 		return
 	}
+	w.record("deliver", p)
 	w.ep[to].inbox = append(w.ep[to].inbox, p)
 }
 
@@ -171,6 +176,9 @@ func chunkKinds(p *wPacket) string {
 func (w *wire) Actions(threadsEnabled bool) []vsched.Action {
 	if threadsEnabled && !w.envPreempt {
 		return nil
+	}
+	if !threadsEnabled && w.onQuiescent != nil {
+		w.onQuiescent()
 	}
 	w.mu.Lock()
 	defer w.mu.Unlock()
